@@ -56,6 +56,9 @@ func main() {
 }
 
 func mustLoad() *Global {
+	if r := os.Getenv("GOVC_REPO"); r != "" {
+		repoDir = r
+	}
 	t0 := time.Now()
 	g, err := loadGlobal(repoDir, contractFiles())
 	if err != nil {
@@ -213,7 +216,3 @@ func cmdSync(args []string) {
 	}
 }
 
-func cmdCheck(args []string) {
-	fmt.Fprintln(os.Stderr, "check: not implemented yet")
-	os.Exit(2)
-}
